@@ -3,6 +3,7 @@
 //    walking the tree and loaded schema-driven into a skeleton of the expected shape; an object node may carry a request
 //    *program* (keyed reads in any order, absent keys, VisitKeys, nested scopes left partly read).
 #pragma once
+#include <algorithm>
 #include <cstdint>
 #include <cstring>
 #include <optional>
@@ -83,6 +84,7 @@ struct DynNode
 	// load control
 	bool required = false;          // attach Required() to this member
 	int32_t readCount = -1;         // Arr: how many elements to read (-1: all)
+	int32_t sizeLie = 0;            // Arr: size() reports this many elements fewer than are saved (a user error the binary writer must report)
 	bool useProgram = false;        // Obj: interpret `program` instead of reading every member in order
 	std::vector<ReqOp> program;
 
@@ -107,7 +109,7 @@ struct DynNode
 	template <class A, class TKey> void Absent(A& ar, const TKey& key, const ReqOp& op, OpResult& r);
 };
 
-inline size_t ArrView::size() const { return n->items.size(); }
+inline size_t ArrView::size() const { return n->items.size() - std::min<size_t>(n->items.size(), static_cast<size_t>(n->sizeLie)); }
 
 template <class A>
 void SerializeArray(A& ar, ArrView& v) { v.n->SerializeItems(ar); }
@@ -174,6 +176,7 @@ inline DynNode Skeleton(const DynNode& n)
 	r.keys = n.keys;
 	r.required = n.required;
 	r.readCount = n.readCount;
+	r.sizeLie = n.sizeLie;
 	r.useProgram = n.useProgram;
 	r.program = n.program;
 	r.items.reserve(n.items.size());
